@@ -59,8 +59,16 @@ def run_constant(hist, ptype, rnd, reuse="fresh"):
         v = ips["p"]["F0"]
         rec["value"] = rat(v, den)
         col = np.asarray(est)[:, list(model.features).index("F0")]
+        # the same individual parameters handed over in another key order (a container rebuilt by the caller): same estimates
+        from leaspy.io.outputs.individual_parameters import IndividualParameters
+        ips_r = IndividualParameters()
+        ips_r.add_individual_parameters("p", {"F1": ips["p"]["F1"], "F0": ips["p"]["F0"]})
+        with warnings.catch_warnings():
+            warnings.simplefilter("ignore")
+            est_r = model.estimate({"p": [50.0, 61.0, 99.5]}, ips_r)["p"]
         rec["repeated_at_every_age"] = bool(np.array_equal(col, np.full(3, np.float32(v)), equal_nan=True)) and np.asarray(est).shape == (3, 2) \
-            and list(model.features) == ["F0", "F1"] and set(ips["p"]) == {"F0", "F1"}
+            and list(model.features) == ["F0", "F1"] and set(ips["p"]) == {"F0", "F1"} \
+            and bool(np.array_equal(np.asarray(est), np.asarray(est_r), equal_nan=True))
     except Exception as e:  # noqa: BLE001
         rec["status"] = f"{type(e).__name__}: {str(e)[:120]}"
     return rec
@@ -87,8 +95,11 @@ def run_lme(c, rnd, reuse="fresh"):
             model.dimension = 1
             model._is_initialized = True
             rows = [{"ID": "q", "TIME": AM + AS * float(a), "Y": float(y)} for a, y in zip(lme["ages"], lme["ys"])]
+            if (n + sum(int(a) for a in lme["ages"])) % 2 == 0:
+                # a visit whose value is missing, kept in the data (drop_full_nan=False): it carries no information
+                rows.append({"ID": "q", "TIME": AM + AS * 7.0, "Y": np.nan})
             rnd.shuffle(rows)
-            data = Data.from_dataframe(pd.DataFrame(rows))
+            data = Data.from_dataframe(pd.DataFrame(rows), drop_full_nan=False)
             if reuse == "after_estimates":
                 other = pd.DataFrame({"ID": ["u", "u", "w", "w", "w"], "TIME": [AM - AS, AM + 2 * AS, AM, AM + AS, AM + 3 * AS], "Y": [1.0, -2.0, 0.5, 2.0, 2.5]})
                 ips0 = model.personalize(Data.from_dataframe(other), "lme_personalize")
